@@ -227,6 +227,13 @@ def check_lines(case):
         ds = ds["y"].transpose(*(dims[::-1] + ["x"])).to_dataset(name="y")
     elif stored == 2:
         ds["y"] = ds["y"].transpose(*(["x"] + dims[1:] + dims[:1]))
+    if core.pick([shape, assign, case["nan"], "stray"], 3) == 0:
+        # the dataset also holds a result that lives on a dimension the
+        # plotted variable does not have (a typical multi-output harvest)
+        import xarray as xr
+        ds["other"] = xr.DataArray(
+            np.arange(2.0 * shape[0]).reshape(shape[0], 2),
+            dims=(dims[0], "w"), coords={"w": [5, 6]})
     before = ds.copy(deep=True)
     vio = []
 
@@ -641,6 +648,13 @@ def check_heat(case):
     if case["nan"] == "point":
         z[0, 1] = np.nan
     xs_, ys_ = [1.0, 2.0, 3.0][:nx], [10.0, 20.0, 30.0][:ny]
+    # (the coordinates may be stored in descending order)
+    cord = core.pick([case["palette"], grid, case["agg"], case["nan"], layout,
+                      "cord"], 3)
+    if cord == 1:
+        ys_ = ys_[::-1]
+    elif cord == 2:
+        xs_ = xs_[::-1]
     ds = xr.Dataset({"zz": (("yy", "xx", "r", "c", "rep"), z)},
                     coords={"xx": xs_, "yy": ys_,
                             "r": [5, 6][:nr], "c": ["u", "v"][:nc]})
@@ -688,11 +702,22 @@ def check_heat(case):
         want = np.nanmedian(z[:, :, i, j, :], axis=-1)
         co = meshes[0].get_coordinates()
         xe, ye = co[0, :, 0], co[:, 0, 1]
-        if len(xe) != nx + 1 or len(ye) != ny + 1 or not all(
-                xe[n] < xs_[n] < xe[n + 1] for n in range(nx)) \
-                or not all(ye[n] < ys_[n] < ye[n + 1] for n in range(ny)):
-            vio.append((key("mesh-coords"), "cells %r x %r do not enclose the "
-                        "coordinates" % (xe.tolist(), ye.tolist())))
+        # cell (a, b) of the mesh is centred on which labels?
+        xc = [(xe[n] + xe[n + 1]) / 2 for n in range(len(xe) - 1)]
+        yc = [(ye[n] + ye[n + 1]) / 2 for n in range(len(ye) - 1)]
+        try:
+            ix = [min(range(nx), key=lambda k_: abs(xs_[k_] - c)) for c in xc]
+            iy = [min(range(ny), key=lambda k_: abs(ys_[k_] - c)) for c in yc]
+        except ValueError:
+            ix = iy = []
+        if sorted(ix) != list(range(nx)) or sorted(iy) != list(range(ny)) \
+                or any(abs(xs_[k_] - c) > 0.26 for k_, c in zip(ix, xc)) \
+                or any(abs(ys_[k_] - c) > 2.6 for k_, c in zip(iy, yc)):
+            vio.append((key("mesh-coords"), "cells centred on %r x %r are not "
+                        "the coordinates %r x %r" % (xc, yc, xs_, ys_)))
+            continue
+        # (the expected values in the order the mesh lists its cells)
+        want = want[np.ix_(iy, ix)]
         arr = np.asarray(meshes[0].get_array())
         if case["palette"]:
             got = np.ma.masked_invalid(np.asarray(arr, float).reshape(ny, nx))
